@@ -49,8 +49,10 @@ Definition reps_in_bucket (itv : N) (U : list id) (k : N) : Z :=
 Definition total_spec (U : list id) (xs : list extra) : Z :=
   let T := wrap64 (zsum (map x_total xs)) in
   if Z.ltb 0 T then wrap64 (T - reps_total U) else T.
+(* what one store reports for bucket k (all entries with that key; a proto map has one) *)
+Definition hsumk (h : list (N * Z)) (k : N) : Z := zsum (map snd (filter (fun kc => N.eqb (fst kc) k) h)).
 Definition hist_spec (itv : N) (U : list id) (xs : list extra) (k : N) : Z :=
-  wrap64 (zsum (map (fun x => hlookup (x_hist x) k) xs) - reps_in_bucket itv U k).
+  wrap64 (zsum (map (fun x => hsumk (x_hist x) k) xs) - reps_in_bucket itv U k).
 Definition hist_keys_spec (itv : N) (U : list id) (xs : list extra) : list N :=
   flat_map (fun x => map fst (x_hist x)) xs
   ++ (if N.eqb itv 0 then [] else map (bucket_of itv) (filter (fun i => negb (Z.eqb (reps_in_bucket itv U (bucket_of itv i)) 0)) U)).
@@ -58,11 +60,12 @@ Definition errs_spec (xs : list extra) : nat := fold_right Nat.add 0 (map x_errs
 
 (* aggregation j, bin b: the containers the answering shards hold for it (with samples) *)
 Definition bin_parts (j : nat) (b : bin) (xs : list extra) : list sc :=
-  flat_map (fun x => match blookup (fst (nth j (x_aggs x) ([], 0%Z))) b with
-                     | Some h => [h] | None => [] end) xs.
+  flat_map (fun x => map snd (filter (fun bh => bin_eqb (fst bh) b) (fst (nth j (x_aggs x) ([], 0%Z))))) xs.
 Definition nonempty_parts (l : list sc) : list sc := filter (fun h => negb (Z.eqb (sc_total h) 0)) l.
-Fixpoint zmin_list (d : Z) (l : list Z) : Z := match l with [] => d | [x] => x | x :: r => Z.min x (zmin_list d r) end.
-Fixpoint zmax_list (d : Z) (l : list Z) : Z := match l with [] => d | [x] => x | x :: r => Z.max x (zmax_list d r) end.
+Fixpoint zmin_list (d : Z) (l : list Z) : Z :=
+  match l with [] => d | x :: r => match r with [] => x | _ => Z.min x (zmin_list d r) end end.
+Fixpoint zmax_list (d : Z) (l : list Z) : Z :=
+  match l with [] => d | x :: r => match r with [] => x | _ => Z.max x (zmax_list d r) end end.
 Fixpoint zinsert (x : Z) (l : list Z) : list Z :=
   match l with [] => [x] | y :: r => if Z.leb x y then x :: l else y :: zinsert x r end.
 Definition zsort (l : list Z) : list Z := fold_right zinsert [] l.
